@@ -107,3 +107,7 @@ package semver
 //@ lemma c20-range-equal [C20] uses c20-equal: forall sr *VersionRange, v1, v2 *Version :: sr != nil && v1 != nil && v2 != nil && wfRange(sr) && (forall i int :: 0 <= i && i < len(sr.constraints) ==> sr.constraints[i].version != nil && (sr.constraints[i].operator == "=" || sr.constraints[i].operator == "!=" || sr.constraints[i].operator == "<" || sr.constraints[i].operator == "<=" || sr.constraints[i].operator == ">" || sr.constraints[i].operator == ">=")) && v1.Compare(v2) == 0 ==> ((forall i int :: 0 <= i && i < len(sr.constraints) ==> sr.constraints[i].matches(v1)) == (forall i int :: 0 <= i && i < len(sr.constraints) ==> sr.constraints[i].matches(v2)))
 // ... and the set a range without != accepts is convex in the order
 //@ lemma c20-range-convex [C20] uses c20-convex: forall sr *VersionRange, a, b, d *Version :: sr != nil && a != nil && b != nil && d != nil && wfRange(sr) && (forall i int :: 0 <= i && i < len(sr.constraints) ==> sr.constraints[i].version != nil && (sr.constraints[i].operator == "=" || sr.constraints[i].operator == "!=" || sr.constraints[i].operator == "<" || sr.constraints[i].operator == "<=" || sr.constraints[i].operator == ">" || sr.constraints[i].operator == ">=") && sr.constraints[i].operator != "!=") && a.Compare(b) <= 0 && b.Compare(d) <= 0 && (forall i int :: 0 <= i && i < len(sr.constraints) ==> sr.constraints[i].matches(a)) && (forall i int :: 0 <= i && i < len(sr.constraints) ==> sr.constraints[i].matches(d)) ==> (forall i int :: 0 <= i && i < len(sr.constraints) ==> sr.constraints[i].matches(b))
+
+// ---- the registered name (the VERS evaluator and the CLI select behaviour by it)
+//@ func (*Ecosystem).Name
+//@   ensures result == "semver"   [C04 C15 C17]
